@@ -3,14 +3,16 @@ import dns
 import hostile
 import pC13
 
-SLICE = "STORE with D operations (one datagram through the responder loop body, the one-shot resolver's header peeks on its 4096-byte buffer, and the discovery listener's loop body, against a generated store)"
+SLICE = ("STORE with D operations (one datagram through the responder loop body, the one-shot resolver's header peeks on its 4096-byte buffer, and the discovery listener's loop body, against a generated store); "
+         "SOCK (a sampled subset on real sockets: a running sync SimpleMdnsResponder is sent datagrams over the multicast group and must still answer a one-shot query afterwards)")
 RULE = ("stores built from the C13 record pool plus records with hostile owner names; datagrams: empty, 1..11 bytes, every "
         "truncation and length corruption of valid queries and responses, valid packets with non-UTF-8 / NUL / dotted / maximal "
         "labels both as questions and as announced records, announced TTLs up to 2^32-1 with and without cache-flush, queries carrying known answers with TTLs up to 2^32-1, responses with and without the RESPONSE flag, seeded random bytes; "
         "interleaved with valid traffic. Oracle: no PANIC/HANG; every reply produced parses. non-trivial = datagram accepted by some pipeline")
 CASE_SECS = 20
-CANNOT_EXHIBIT = ["the receive threads, RwLock poisoning and multicast sockets themselves: the loop bodies are driven through the "
-                  "cfg(simple_dns_verif) wrappers; a panic there is what would kill the thread / poison the lock",
+CANNOT_EXHIBIT = ["the receive threads, RwLock poisoning and multicast sockets of the discovery listener and of the tokio services: their loop bodies are driven through the "
+                  "cfg(simple_dns_verif) wrappers; a panic there is what would kill the thread / poison the lock. The sync responder's real thread and sockets ARE exercised by the SOCK cases "
+                  "(reported as NOSOCKET, and not judged, where the environment has no multicast)",
                   "the tokio (async) services: their copy of add_response_to_resources IS driven (every ingesting case is run through both the sync and the tokio listener and the outputs must be identical); their socket loops are not"]
 SVC = [b"_srv", b"_tcp", b"local"]
 ME = [b"me"] + SVC
@@ -130,6 +132,34 @@ def cases(rng, tier):
         toks += ["D"] + dns.name_toks(SVC) + dns.name_toks(ME) + [b.hex()]
         toks += ["K"] + dns.name_toks(SVC)
         out.append("STORE " + " ".join(toks))
+    # a sampled subset on real sockets: a SimpleMdnsResponder thread is started, datagrams are multicast to it, and it must still
+    # answer afterwards. Header-sized and shorter datagrams under every flag pattern, random bytes, malformed and hostile messages.
+    short = []
+    for n in range(0, 14):
+        for w in (0x0000, 0x0200, 0x0100, 0x7800, 0x0300, 0x000f, 0x8000, 0x8200, 0xffff, 0x7fbf):
+            d = (b"\x00\x00" + w.to_bytes(2, "big") + b"\x00\x01\x00\x00\x00\x00\x00\x00" + b"\x00\x00")[:n]
+            short.append(d)
+    SOCK_DGRAMS.clear()
+    for part in range(3):
+        ds = [d for i, d in enumerate(short) if i % 3 == part]
+        for _ in range(25):
+            r = rng.below(4)
+            if r == 0:
+                ds.append(rng.bytes(rng.below(60)))
+            else:
+                pk = hostile.hostile_packet(rng) if r == 1 else pC13.query_pkt(rng.below(65536), [{"name": rng.choice(pC13.NAMES), "qtype": 255, "qclass": 1, "uni": False}])
+                b, marks = dns.encode_marked(pk, rng, rng.choice([0, 3]))
+                if r == 3:
+                    ms = dns.malformations(b, marks, rng, budget=6)
+                    b = rng.choice(ms) if ms else b
+                ds.append(b[:8900])
+        c = "SOCK " + " ".join(d.hex() or "-" for d in ds)
+        SOCK_DGRAMS[c] = ds
+        out.append(c)
+    # a responder serving thousands of records below its name, asked for all of them: the reply does not fit a datagram
+    # (finding F31: the failed send used to end the loop); then it must still answer
+    for n in (40, 1000, 4000):
+        out.append("SOCK R%x %s" % (n, b"\x00\x00\x00\x00\x00\x00".hex()))
     # replies larger than 16 KiB: a store of address records under one service whose sorted order puts a two-new-label name
     # at offset 16384 - k, followed by a name sharing only its later suffix
     base = [b"_s", b"_tcp", b"local"]
@@ -172,19 +202,30 @@ def normalize(case, out):
     # instance names are rendered with Display (lossy for non-UTF-8 labels), which the byte-level model does not reproduce:
     # discovery results are compared by their counts only (C15 compares them exactly on valid names)
     import re
+    if case.startswith("SOCK"):
+        # ALIVE (or NOSOCKET where the environment has no multicast) is what the model's constant stands for
+        return "SOCK" if out.split(" ")[0] in ("SOCK", "ALIVE", "NOSOCKET") else out
     out = re.sub(r"ING ([0-9a-f]+)[^|]*", r"ING \1 ", out)
     return re.sub(r"\| K ([0-9a-f]+).*$", r"| K \1", out)
 
 
+SOCK_DGRAMS = {}
+
+
 def classify(case, out):
-    return "run"
+    return "sock:" + out.split(" ")[0] if case.startswith("SOCK") else "run"
 
 
 def nontrivial(case, out):
-    return "REPLY" in out or "ING" in out
+    return "REPLY" in out or "ING" in out or out.startswith("ALIVE")
 
 
 def oracle(case, out):
+    if case.startswith("SOCK"):
+        if out.startswith("DEAD") or out.startswith("PANIC") or out in ("HANG", "CRASH"):
+            return ("%s: a running SimpleMdnsResponder no longer answers a query for its own record after these datagrams were "
+                    "multicast to it: %s" % (out, case[5:600]))
+        return None
     if out.startswith("PANIC") or out in ("HANG", "CRASH") or "PANIC" in out:
         return "%s while handling datagrams: %s" % (out[:40], case[:400])
     if "PARSEFAIL" in out or "WRITEFAIL" in out:
